@@ -26,6 +26,8 @@ def box(name):
         return dict(fam=families.SHAPE(1), alpha='xyzw', chunk=8)
     if name == 's2':
         return dict(fam=families.SHAPE(2), alpha='xyzw', chunk=24)
+    if name == 'lists':     # list-like helper rules (empty / recursive / EBNF, inlined or not): child-list reuse, empty reductions
+        return dict(fam=families.LISTS(), alpha='xy', chunk=24)
     if name == 'x1':        # the anonymous literal is "x": same terminal as the named X, filtered per occurrence
         return dict(fam=families.SHAPE(1, zlit='x'), alpha='xyw', chunk=8)
     if name == 'x2':
@@ -33,8 +35,8 @@ def box(name):
     raise KeyError(name)
 
 
-TIERS = {'quick': [('s1', 1, 3), ('s2', 48, 3), ('x1', 1, 3), ('x2', 48, 3)],
-         'thorough': [('s1', 1, 4), ('s2', 1, 3), ('x1', 1, 4), ('x2', 2, 3)]}
+TIERS = {'quick': [('s1', 1, 3), ('s2', 64, 3), ('x1', 1, 3), ('x2', 64, 3), ('lists', 4, 4)],
+         'thorough': [('s1', 1, 4), ('s2', 1, 3), ('x1', 1, 4), ('x2', 2, 3), ('lists', 1, 5)]}
 
 
 def helper_cache_collision(g, same, keep_all):
